@@ -677,7 +677,7 @@ impl C20 {
 							.join("+");
 						result["violation"] = json!({
 							"sig": format!("not_serializable:{}:{}", tasks.iter().map(|t| t.kind.clone()).collect::<Vec<_>>().join(","), kind),
-							"detail": format!("interleaving {:?} of tasks {:?} ends in a state no serial order produces; closest serial order {:?}: interleaved-only {:?}, serial-only {:?}", choices, tasks.iter().map(|t| t.kind.clone()).collect::<Vec<_>>(), best.0, extra, missing),
+							"detail": format!("interleaving {:?} of tasks {:?} (outcomes {:?}) ends in a state no serial order produces; closest serial order {:?}: interleaved-only {:?}, serial-only {:?}", choices, tasks.iter().map(|t| t.kind.clone()).collect::<Vec<_>>(), outs.iter().map(|o| if o.ok { "ok".to_owned() } else { o.err.clone().unwrap_or_default() }).collect::<Vec<_>>(), best.0, extra, missing),
 							"schedule": choices,
 						});
 					} else if let Some((sig, detail)) = Self::completed_effects(ex, w, &tasks, &outs) {
